@@ -37,6 +37,7 @@ GENERATED_CODE_SYMBOLS = ["field", "dataclass", "Decimal", "QName", "XmlDate", "
 # documentation texts end up in docstrings and (accessible style) in metadata strings of the generated modules
 HOSTILE_DOCS = ["Plain sentence.", 'Type[x] looks like a placeholder', 'ForwardRef("x") too', 'say """hi""" there', "a path C:\\new\\table\\x and a trailing backslash \\",
                 "The value is stored at \\\\server-name\\share-name\\some-directory\\another-directory\\file-name.extension on the file server of the department, see there.",
+                "dense path " + "\\x" * 70 + " end", "dense quotes " + '"' * 61 + " end", "a" * 15 + "\\" * 41 + " z",
                 "   leading blanks, tabs\tand\nline breaks ", "é 中文 \u2028 separator", "ends with a quote\"", "{braces} and %s and \\N{DASH}", "x" * 200, ""]
 PLAIN_NAMES = ["alpha", "beta", "gamma", "delta", "item", "entry", "name", "size", "code", "note", "kind", "part", "unit", "row", "cell", "info", "data", "node", "leaf", "head", "tail", "body"]
 
